@@ -754,8 +754,13 @@ func excluded(class string) bool {
 //	                     passed the closed check panics on the nil maps left by a concurrent
 //	                     Runtime.Close. Excluded: no compilation in a goroutine phase that
 //	                     contains a Runtime.Close.
-//	engine-close-race    C10-race-engine-close (fixed by 458ac39; for runs on older trees).
-//	                     Excluded like compile-during-close plus closes of instances owning code.
+//	engine-close-race    C10-race-engine-close (interpreter; fixed by 458ac39; for runs on older
+//	                     trees). Excluded like compile-during-close.
+//	wazevo-engine-close-race
+//	                     C10-race-wazevo-engine-close: wazevo compileModule reads
+//	                     engine.sharedFunctions without the engine mutex while engine.Close
+//	                     writes it. Only the race detector sees it: excluded (race binary,
+//	                     compiler engine) like compile-during-close.
 
 // ---------------------------------------------------------------------------------------
 // generator
@@ -766,6 +771,9 @@ func genConc(t *rapid.T) *ConcCase {
 	c := &ConcCase{Kind: "conc", Engine: rapid.SampledFrom(wz.Engines).Draw(t, "engine"),
 		Procs: rapid.SampledFrom([]int{2, 4, 16}).Draw(t, "gomaxprocs")}
 	exD, exP, exC := excluded("closenotifier-race"), excluded("compile-during-close"), excluded("engine-close-race")
+	if excluded("wazevo-engine-close-race") && raceMode() && c.Engine == "compiler" {
+		exC = true
+	}
 	hasRC := rapid.IntRange(0, 9).Draw(t, "has-runtime-close") < 4
 	lookupCloses := rapid.IntRange(0, 9).Draw(t, "closes-through-lookup") < 5
 	notifOK := !(exD && (hasRC || lookupCloses))
@@ -1094,6 +1102,8 @@ func TestConcurrent(t *testing.T) {
 
 func classifyRace(report string) string {
 	switch {
+	case strings.Contains(report, "wazevo.(*engine).Close") && strings.Contains(report, "wazevo.(*engine).compileModule"):
+		return "C10-race-wazevo-engine-close"
 	case strings.Contains(report, "ensureResourcesClosed") && strings.Contains(report, "InstantiateModule"):
 		return "C10-closenotifier-race"
 	case strings.Contains(report, "interpreter.(*engine).Close"):
@@ -1181,7 +1191,7 @@ func clip(s string, n int) string {
 func probeNotifierRace(iter int) (lost int, detail string) {
 	for i := 0; i < iter; i++ {
 		c := &ConcCase{Kind: "conc", Engine: wz.Engines[i%2], Procs: 4,
-			Threads: [][]Op{{{K: kInst, Bin: 1, Set: true, Name: "a", Y: i % 5}}, {{K: kRtClose, Y: (i / 5) % 5}}}}
+			Threads: [][]Op{{{K: kInst, Bin: 1, Set: true, Name: "a", Y: i % 5, FromBin: i%3 == 2}}, {{K: kRtClose, Y: (i / 5) % 5}}}}
 		res, err := runConc(c)
 		if err != nil {
 			return lost, err.Error()
@@ -1223,6 +1233,11 @@ func probeCompileDuringClose(iter int) (panics int, detail string) {
 	return
 }
 
+var probeText = map[string]string{
+	"notifier": "{InstantiateModule / InstantiateWithConfig with a CloseNotifier || Runtime.Close}, 300 runs",
+	"compile":  "{CompileModule of fresh binaries / HostModuleBuilder.Compile || Runtime.Close}, 300 runs",
+}
+
 // TestProbeChild is what the child process of TestRaceFindings runs.
 func TestProbeChild(t *testing.T) {
 	switch os.Getenv("VERIF_C10_CHILD") {
@@ -1260,21 +1275,31 @@ func TestRaceFindings(t *testing.T) {
 	if sh, _ := evid.Shard(); sh != 0 {
 		t.Skip()
 	}
-	out := runChild("notifier")
 	reported := map[string]bool{}
-	for _, rep := range splitRaceReports(out) {
-		id := classifyRace(rep)
-		if id == "" || reported[id] {
-			continue
-		}
-		reported[id] = true
-		if evid.Finding(id, "race-probe-"+id, map[string]any{"kind": "race-report", "probe": "notifier", "report": rep},
-			"data race inside wazero: InstantiateModule writes CloseNotifier/CodeCloser of an instance that is already registered while Runtime.Close reads them\n%s", clip(rep, 2500)) {
-			t.Fail()
+	for _, probe := range []string{"notifier", "compile"} {
+		out := runChild(probe)
+		for _, rep := range splitRaceReports(out) {
+			if !strings.Contains(rep, "tetratelabs/wazero") {
+				continue
+			}
+			id := classifyRace(rep)
+			if id == "" {
+				id = "C10-unclassified-race"
+			}
+			if reported[id] {
+				continue
+			}
+			reported[id] = true
+			if evid.Finding(id, "race-probe-"+id, map[string]any{"kind": "race-report", "probe": probe, "report": rep},
+				"data race inside wazero (probe %q: %s)\n%s", probe, probeText[probe], clip(rep, 2500)) {
+				t.Fail()
+			}
 		}
 	}
-	if !reported["C10-closenotifier-race"] {
-		evid.Note("C10-closenotifier-race: the race detector did not report it in this run of the probe")
+	for _, id := range []string{"C10-closenotifier-race", "C10-race-engine-close", "C10-race-wazevo-engine-close"} {
+		if !reported[id] {
+			evid.Note("%s: not reported by the race detector in this run of the probes", id)
+		}
 	}
 }
 
